@@ -38,7 +38,7 @@ META = dict(
     ],
     outside="std_discrete > 2, in-plane extents above 5x6, designs with several singleton axes, float round-off of the convolution, "
             "the Gaussian shape of the kernel itself (only its consequences named in the statement are checked)",
-    bounds=dict(quick=dict(std=[1, 2], max_plane=[4, 5], patterns="all 16 None-patterns, spread over the cases"),
+    bounds=dict(quick=dict(std=[1, 2], max_plane=[4, 5], patterns="all 16 None-patterns, spread over the cases (4-8 per case)"),
                 thorough=dict(std=[1, 2], max_plane=[5, 6], patterns="all 16 None-patterns per case")),
     timeout_ms=dict(quick=60000, thorough=300000),
 )
@@ -59,8 +59,9 @@ def cases(tier, seed):
     out = []
     for n, (std, sh) in enumerate(quick + (extra if tier != "quick" else [])):
         if tier == "quick":
-            # every pattern appears in >= 2 quick cases; the all-None and all-given patterns in each
-            pats = sorted({0, 15} | {(3 * n + 5 * k) % 16 for k in range(5)})
+            # pattern subsets closed under both mirrors (so no extra interpretations); every orbit appears in >= 1 quick case
+            orbits = [[1, 2], [4, 8], [3], [12], [5, 6, 9, 10], [7, 11], [13, 14]]
+            pats = sorted({0, 15} | set(orbits[n % 7]) | set(orbits[(n + 3) % 7]) | (set(orbits[6]) if n == 5 else set()))
         else:
             pats = list(range(16))
         out.append(dict(name=f"std{std}-{'x'.join(map(str, sh))}", std=std, shape=list(sh), patterns=pats))
@@ -112,20 +113,34 @@ def run_case(c, case):
     def unplane(a):
         return a.reshape(sh)
 
-    traced = {}
+    generic = {}
+
+    def interpret(p):
+        """one symbolic execution of the real smoothing per None-pattern: generic inputs -> output terms."""
+        if p not in generic:
+            t0 = time.time()
+            gx = jx.symarr(f"g{_pname(p)}x", sh)
+            gp = {PADS[i]: jx.symarr(f"g{_pname(p)}p{i}", (padlen[PADS[i]],)) for i in range(4) if p[i]}
+            out, tr = jx.call(fn, gx, gp)
+            generic[p] = (gx, gp, jx.lift(out), tr)
+            c.interp_s += time.time() - t0
+        return generic[p]
 
     def F(p, x, pads):
-        """interpretation of the real smoothing for None-pattern p."""
+        """the symbolic execution result for None-pattern p, instantiated at (x, pads): every generic input variable of
+        the interpreted jaxpr is replaced by the given term (z3.substitute) -- the jaxpr has no data-dependent control
+        flow, so this equals re-interpreting it on these inputs (cross-checked once per case below)."""
         assert set(pads) == {PADS[i] for i in range(4) if p[i]}
-        if p not in traced:
-            t0 = time.time()
-            ex = {k: jx.symarr("ex_" + k, (padlen[k],)) for k in pads}
-            _, tr = jx.call(fn, jx.symarr("ex_x", sh), ex)
-            traced[p] = tr
-            c.interp_s += time.time() - t0
-        t0 = time.time()
-        r = jx.lift(traced[p](jx.lift(x), {k: jx.lift(v) for k, v in pads.items()}))
-        c.interp_s += time.time() - t0
+        gx, gp, out, _ = interpret(p)
+        if tuple(out.shape) != sh:
+            return out
+        pairs = [(g, sc.toreal(sc.toz(v))) for g, v in zip(gx.reshape(-1), jx.lift(x).reshape(-1))]
+        for k in gp:
+            pairs += [(g, sc.toreal(sc.toz(v))) for g, v in zip(gp[k].reshape(-1), jx.lift(pads[k]).reshape(-1))]
+        r = np.empty(sh, dtype=object)
+        for idx in np.ndindex(*sh):
+            v = out[idx]
+            r[idx] = z3.substitute(v, *pairs) if sc.isz(v) else v
         return r
 
     def real(p, xc, padsc):
@@ -165,8 +180,12 @@ def run_case(c, case):
         if not validated or pi == 15:
             xc = rng.normal(size=sh)
             pc = {k: rng.normal(size=v.shape) for k, v in pads.items()}
-            got = F(p, jx.fracarr(xc), {k: jx.fracarr(v) for k, v in pc.items()})
-            c.validate(jx.to_numeric(got), real(p, xc, pc), f"smoothing pattern {pn}")
+            want = real(p, xc, pc)
+            got = interpret(p)[3](jx.fracarr(xc), {k: jx.fracarr(v) for k, v in pc.items()})  # re-interpretation
+            c.validate(jx.to_numeric(got), want, f"smoothing pattern {pn}")
+            sub = F(p, jx.fracarr(xc), {k: jx.fracarr(v) for k, v in pc.items()})  # instantiation of the generic terms
+            subn = np.array([float(z3.simplify(sc.toz(v)).as_fraction()) for v in sub.reshape(-1)]).reshape(sh)
+            c.validate(subn, want, f"instantiated terms, pattern {pn}")
             validated = True
 
         # ---------------------------------------------------------------- affine
